@@ -7,8 +7,10 @@ TreeOrder.tla and every limit.  Binding: the plans TreeLoadGen.tla emits are com
 real loader on real sync trees (real byte sizes, limit = model limit x unit), the C09 predicates
 are evaluated on the real batches, the batches are applied through the real HandleResponse (or to a
 peer without the tree, built like ValidateRawTreeDefault does) and the same requests are served
-through HandleStreamRequest -> send().  Random larger histories with byte limits around every
-cumulative boundary.
+through HandleStreamRequest -> send().  A sample of the behaviours and every second random run use
+signed trees whose own changes are written by the real AddContent (raw size = model size x unit
+exactly, content ids mined to the model's rank); batch sizes are always measured on the raw bytes
+sent.  Random larger histories with byte limits around every cumulative boundary.
 """
 import os
 
@@ -53,12 +55,12 @@ def run(ctx):
         ctx.tlc_expect_ok("treeorder", "TreeLoad", "TreeLoad_mc3r.cfg", timeout=1200)
     # 2. spec -> code: predicted plans vs. the real loader / stream handler / requester
     if thorough:
-        emit_and_replay(ctx, "TreeLoadGen_q.cfg", test_env={"VERIF_APPLY_EVERY": 2, "VERIF_HANDLER_EVERY": 250})
-        emit_and_replay(ctx, "TreeLoadGen_3r_t.cfg", test_env={"VERIF_APPLY_EVERY": 4, "VERIF_HANDLER_EVERY": 2000})
+        emit_and_replay(ctx, "TreeLoadGen_q.cfg", test_env={"VERIF_APPLY_EVERY": 2, "VERIF_HANDLER_EVERY": 250, "VERIF_SIGNED_EVERY": 3})
+        emit_and_replay(ctx, "TreeLoadGen_3r_t.cfg", test_env={"VERIF_APPLY_EVERY": 4, "VERIF_HANDLER_EVERY": 2000, "VERIF_SIGNED_EVERY": 10})
         emit_and_replay(ctx, "TreeLoadGen_sim.cfg", simulate=120, depth=9, timeout=3000,
                         test_env={"VERIF_APPLY_EVERY": 3, "VERIF_HANDLER_EVERY": 400})
     else:
-        emit_and_replay(ctx, "TreeLoadGen_q.cfg", test_env={"VERIF_APPLY_EVERY": 9, "VERIF_HANDLER_EVERY": 1400})
+        emit_and_replay(ctx, "TreeLoadGen_q.cfg", test_env={"VERIF_APPLY_EVERY": 9, "VERIF_HANDLER_EVERY": 1400, "VERIF_SIGNED_EVERY": 10})
         # states in which a tree holds a stale cached snapshot path (reduced to a snapshot, then rebuilt back)
         emit_and_replay(ctx, "TreeLoadGen_stale.cfg", test_env={"VERIF_APPLY_EVERY": 5, "VERIF_HANDLER_EVERY": 0})
     # 3. random larger histories, byte limits around every cumulative boundary
